@@ -203,6 +203,8 @@ def main():
         if recheck and r["seed"] in prev:
             prev[r["seed"]]["checks_fired"] = r.get("checks_fired")
             prev[r["seed"]]["check_detail"] = r.get("check_detail")
+            # a patch that no longer applies or builds on the current HEAD must not keep its old "kept"
+            prev[r["seed"]]["status"] = r.get("status")
         else:
             prev[r["seed"]] = r
     json.dump([prev[k] for k in sorted(prev)], open(rp, "w"), indent=1)
